@@ -352,6 +352,8 @@ class Harness:
         except (S.Infeasible,) + E.UNSUPPORTED_EXC:
             raise
         except Exception as ex_:
+            if E.harness_artifact(ex_):
+                raise E.Unsupported(f"proxy limitation: {type(ex_).__name__}: {str(ex_)[:160]}")
             tr.exc = ex_
         tr.sums = dict(sg.sums) if sg is not None else {}
         return tr
